@@ -314,14 +314,15 @@ def compute_z_zprime_Qbfs(coefs, u, usq):
     """
     # clenshaw does its own u^2
     alphas = clenshaw_qbfs_der(coefs, usq, j=1)
-    S = 2 * (alphas[0][0] + alphas[0][1])
+    # alphas[.][:2] instead of [0] + [1]: a single coefficient has no alpha_1
+    S = 2 * alphas[0][:2].sum(axis=0)
     # Sprime should be two times the alphas, just like S, but as a performance
     # optimization, S = sum cn Qn u^2
     # we're doing d/du, so a prefix of 2u comes in front
     # and 2*u * (2 * alphas)
     # = 4*u*alphas
     # = do two in-place muls on Sprime for speed
-    Sprime = alphas[1][0] + alphas[1][1]
+    Sprime = alphas[1][:2].sum(axis=0)
     Sprime *= 4
     Sprime *= u
 
